@@ -5,12 +5,48 @@ from .. import core
 from ..core import HEADER, CASE_TYPE, CHECK, MODEL_VIEW, SHARD, CASE_TIMEOUT, observe, coq_term, nontrivial_key, tags  # noqa: F401
 
 ID = "C07"
-THEOREMS = ["C07_data_bytes", "C07_data_decode", "C07_data_layout", "C07_ascii", "C07_incbin", "C07_le_length"]
+THEOREMS = ["C07_data_bytes", "C07_data_decode", "C07_data_layout", "C07_ascii", "C07_incbin", "C07_le_length",
+            "C07_text_scan", "C07_text_parse", "C07_text_passes", "C07_text_initial_resolver", "C07_text", "C07_text_lorom",
+            "C07_text_bytes", "C07_text_layout"]
+PROOF_HEADER = "From A816 Require Import Properties.C07 Properties.C07Text."
+
+
+def instantiate(gen_q):
+    """Per-run: the side conditions of the whole-pipeline text theorem hold on the live tables (bus, busmap,
+    precedence table, lexicon), for each of the four data directives and the default configuration."""
+    text = (
+        "From A816 Require Import Model.Assemble Spec.BusLaws Proofs.BusProofs Proofs.ExprProofs Proofs.ExprLex "
+        "Proofs.DataTextScan Proofs.DataTextParse Proofs.DataTextGen Proofs.DataText.\n"
+        "Require Import Run.GenBuses Run.GenOpcodes Run.GenLexicon.\n"
+        "Definition L07 : live := {| lv_low := Run.GenBuses.low_rom_bus; lv_high := Run.GenBuses.high_rom_bus; "
+        "lv_busmap := Run.GenBuses.bus_mapping; lv_optable := Run.GenOpcodes.opcode_table; "
+        "lv_prec := Run.GenOpcodes.operator_precedence; "
+        "lv_lex := mk_lexicon Run.GenLexicon.mnemonics Run.GenLexicon.mnemonics_without_operand Run.GenLexicon.keywords |}.\n"
+        "Definition C07_default : config := {| cf_rom := None; cf_defines := [] |}.\n"
+        "Lemma L07_bus : bus_agree_b (lv_low L07) lorom = true. Proof. vm_compute. reflexivity. Qed.\n"
+        "Lemma L07_cfg : low_rom_config L07 C07_default. Proof. split; [vm_compute; reflexivity|exact I]. Qed.\n"
+        "Lemma L07_prec : prec_compatible (lv_prec L07) = true. Proof. vm_compute. reflexivity. Qed.\n"
+    )
+    names = []
+    for kw, codes, dk in (("db", "[100;98]", "D_db"), ("dw", "[100;119]", "D_dw"), ("dl", "[100;108]", "D_dl"),
+                          ("pointer", "[112;111;105;110;116;101;114]", "D_pointer")):
+        text += (f"Lemma L07_kw_{kw} : all_in kw_chars {codes} /\\ mem_str {codes} (lx_keywords (lv_lex L07)) = true /\\ "
+                 f"dkind_of {codes} = Some {dk}.\nProof. vm_compute. repeat split; try reflexivity; auto 20. Qed.\n"
+                 f"Definition C07_text_live_{kw} fs fname sp0 eorg org it1 rest vs := "
+                 f"C07_text_lorom L07 fs C07_default fname sp0 eorg org {codes} {dk} it1 rest vs L07_bus L07_cfg L07_prec "
+                 f"(proj1 L07_kw_{kw}) (proj1 (proj2 L07_kw_{kw})) (proj2 (proj2 L07_kw_{kw})).\n")
+        names.append(f"C07_text_live_{kw}")
+    return text, names
 RULE = ("every data directive (.db .dw .dl .pointer) x list length 1-8 x boundary/negative/oversized values x literal, "
         "constant, backward and forward label operands; .ascii with non-ASCII characters; .incbin of files of length "
         "0, 1, and lengths that end exactly at / cross a bank end; each followed by a label whose value is checked. "
         "Non-trivial: the program assembles and emits bytes; distinct by source text")
-PROVED_NOTE = ("proved for all integers: data_bytes k v = le_bytes k (v mod 256^k) (two's complement for negatives), its "
+PROVED_NOTE = ("WHOLE PIPELINE ON SOURCE TEXT (Properties/C07Text.v): for the text `*=<org>` newline `.<db|dw|dl|pointer> e1, e2, ...` with "
+               "every expression (literals in any base/case, unary -, + - * & << >>, parentheses) written with arbitrary spacing, "
+               "assemble_source (scanner, parser, code generation, three passes) yields exactly one block: the little-endian "
+               "truncations of the values at the LoROM offset of the origin, and no labels; spacing and literal format do not change "
+               "it; side conditions on bus, precedence table and lexicon are discharged per run on the live tables. " +
+               "proved for all integers: data_bytes k v = le_bytes k (v mod 256^k) (two's complement for negatives), its "
                "decoding, its length = the pc_after advance; .ascii = characters < 128; .incbin binds the start label to "
                "the address of the first byte and name__size to the length. Correspondence-only: parsing of the "
                "expression lists (parser model is checked separately by PARSE), file reading.")
